@@ -1,6 +1,6 @@
 CONFIG = {
     'subs': ['Parse', 'StrToNum'],
-    'props_modules': ['DmlcModel.Props.C12'],
+    'props_modules': ['DmlcModel.Props.C12', 'DmlcModel.Props.C12Fm', 'DmlcModel.Props.C12Csv'],
     'driver': 'Parse',
     'harness': {'name': 'parsers',
                 'srcs': ['harness/h_parsers.cc', '$REPO/src/io/line_split.cc', '$REPO/src/io/input_split_base.cc',
@@ -20,11 +20,12 @@ CONFIG = {
                     'the skipped blanks as a conversion, C14 finding F8d)',
                     'indexing_mode >= 0; indices >= 1 under 1-based mode'],
     'trusted_base': ['modelled by hand, tied by correspondence only: control flow of the parsers (as C11)'],
-    'partial': ['C12_libsvm is proved in full (every table / style / mode / index width / local + exact conversion); the one '
-                'restriction of the Style: every rendered line, the last one included, ends with an end-of-line string',
-                'C12_libfm_statement, C12_csv_statement: stated, not proved (libfm needs the ParseTriple analogue of '
-                'pairS_one / pairS_two and of svmFeats_render; csv the cell-loop analogue); both are covered by the '
-                'table-driven oracle and correspondence'],
+    'partial': ['C12_libsvm and C12_libfm are proved in full (every table / style / mode / index width / local + exact conversion); '
+                'the one restriction of the Style: every rendered line, the last one included, ends with an end-of-line string',
+                'C12_csv is proved with hypotheses added to C12_csv_statement (each forced by a counterexample on the model, listed at '
+                'the head of Props/C12Csv.lean): rows have a feature column and non-empty label / weight cells (a table row always has a '
+                'label), label_column != weight_column, no NaN weight, pads cover the cells, the cell conversion skips leading blanks '
+                'as strtof does, the delimiter is not NUL; and (A5) with a white-space delimiter the table has no empty cell'],
 }
 
 MANIFEST = {
